@@ -237,6 +237,32 @@ class Env:
                     available[t] = from_clause.c["zz_"]
         return sql.Payload(from_clause, where=where, columns_available=available)
 
+    def twin(self, leaves2):
+        """A second set of leaf relations in the *same* engines: same names, columns and engines, other rows."""
+        t = Env.__new__(Env)
+        t.__dict__.update(self.__dict__)
+        t.leaves = leaves2
+        t.tables = []
+        t.case_no = next(_COUNTER)
+        t.leafrels = []
+        t.payloads = []
+        try:
+            for leaf in leaves2:
+                t.leafrels.append(t._make_leaf(leaf))
+        except Exception:
+            t.close_tables()
+            raise
+        return t
+
+    def close_tables(self):
+        conn = db()
+        for tb in self.tables:
+            try:
+                tb.drop(conn)
+            except Exception:
+                pass
+        self.tables = []
+
     def leaf_index(self, leafrel):
         for i, r in enumerate(self.leafrels):
             target = r
